@@ -726,7 +726,7 @@ pub fn forwarded_tlv_reencode(rep: &mut Report, tlvs_in: &[Tlv], seed: u64) {
 
 pub fn run(rep: &mut Report, tier: &str, seed: u64, shard: (u32, u32), replay: Option<&str>) {
     rep.rule = "inputs = reference-codec encodings of every message type with swept/lattice/random field values and TLV layouts, their mutations (bit flips, truncations, messageLength relations, TLV length corruption) and pure random bytes; distinct = distinct byte strings; non-trivial = accepted by the decoder (oracle clauses 2-4 ran)".into();
-    rep.require(&["accepted", "rejected", "reencoded", "refcodec_compared", "debug_compared", "tail_pairs"]);
+    rep.require(&["accepted", "rejected", "reencoded", "refcodec_compared", "debug_compared", "tail_pairs", "message_longer_than_1024_octets"]);
     for t in ALL_TYPES {
         rep.required_events.push(format!("accepted_{}", type_name(t)));
     }
@@ -897,6 +897,32 @@ pub fn run(rep: &mut Report, tier: &str, seed: u64, shard: (u32, u32), replay: O
                     let mut m3 = base.clone();
                     m3.tlvs = vec![Tlv { ty, value: vec![0x5a; len], len_override: Some((len as u16).wrapping_add(2)) }];
                     one(rep, &m3.encode(), "tlv-length-lies", &mut rng);
+                }
+            }
+        }
+    }
+    if shard.0 == 0 && tier != "miri" {
+        // messages longer than the 1024 octets statime itself ever sends: a TLV boundary at and
+        // around octet 1024 followed by further TLVs, complete and cut short
+        for t in ALL_TYPES {
+            let mut base = rand_msg(&mut rng, t);
+            base.tlvs = vec![];
+            base.trailing = vec![];
+            base.hdr.length = None;
+            let body_len = base.encode().len();
+            for delta in [-8i64, -4, -2, 0, 2, 4, 8, 200] {
+                for second in [0usize, 2, 6, 40, 300] {
+                    let first = (1024 + delta - body_len as i64 - 4).max(0) as usize & !1;
+                    let mut m = base.clone();
+                    m.tlvs = vec![Tlv::new(0x2004, (0..first).map(|i| i as u8).collect()), Tlv::new(0x4002, vec![0xab; second]), Tlv::new(0x8000, vec![1, 2, 3, 4, 5, 6])];
+                    let b = m.encode();
+                    one(rep, &b, "longer-than-1024", &mut rng);
+                    rep.ev("message_longer_than_1024_octets");
+                    for cut in [1024usize, 1026, b.len() - 1, b.len() - 4] {
+                        if cut < b.len() {
+                            one(rep, &b[..cut], "longer-than-1024-cut-short", &mut rng);
+                        }
+                    }
                 }
             }
         }
